@@ -50,7 +50,8 @@ def main():
         pick = allst if len(allst) <= 27 else rng.sample(allst, 20 if chk.tier == "quick" else 60)
         hz = (5 if s["n"] <= 3 else 4) if chk.tier == "quick" else 6
         for st0 in pick:
-            tasks.append({"sc": i, "st0": st0, "horizon": hz, "tmin": 3 if len(tasks) % 6 == 0 else 0})
+            tasks.append({"sc": i, "st0": st0, "horizon": hz, "tmin": 3 if len(tasks) % 6 == 0 else 0,
+                          "infl_kind": ("set", "list", "iterator", "generator")[len(tasks) % 4]})
     done = common.pool_run(complexc.run_scenario, tasks, lambda r: bool(r["problems"]))
     for t, r in done:
         chk.cov["evaluations"] += r["leaves"] + r["arr"]
